@@ -636,6 +636,13 @@ func init() {
 			if sy, ok := a[0].(SymStr); ok && strings.HasPrefix(sy.T, "(fmtfloat18 ") {
 				return e.decFromFormattedFloat(s, f, x, sy)
 			}
+			// parsing back a formatted Int / Dec (amounts are passed as strings in x/lend)
+			if sy, ok := a[0].(SymStr); ok && strings.HasPrefix(sy.T, "(strofint ") && balanced(sy.T) {
+				return ret(f, x, Tuple{BigV{T: tMul(sy.T[len("(strofint "):len(sy.T)-1], S18)}, IfaceV{}})
+			}
+			if sy, ok := a[0].(SymStr); ok && strings.HasPrefix(sy.T, "(strofdec ") && balanced(sy.T) {
+				return ret(f, x, Tuple{BigV{T: sy.T[len("(strofdec ") : len(sy.T)-1]}, IfaceV{}})
+			}
 			panic("LegacyNewDecFromStr of a symbolic string")
 		}
 		t, ok := parseDec(sv.S)
